@@ -46,9 +46,23 @@ def judgeLine (j : J) (op : String) (outs : List String) : J × List String :=
       -- the typed statements came through except that control characters (TAB ...) inside them are gone
       let strip (h : String) : String :=
         hexOrDash (((bytesOfHex h).getD []).filter fun b => b.toNat ≥ 32)
-      let hasSub (h sub : String) : Bool := (h.splitOn sub).length > 1
-      -- (hex text: `2f2f` = //, `2f2a` = /*; only a heuristic for choosing the signature)
-      if e.any (fun h => hasSub h "2f2f" || hasSub h "2f2a") then ({ j with expect := none },
+      -- a `//` or `/*` outside every quoted literal (quote state as the splitter keeps it)
+      let rec commentOutside (bs : List UInt8) (quote : UInt8) (esc : Bool) : Bool :=
+        match bs with
+        | [] => false
+        | b :: rest =>
+          if esc then commentOutside rest quote false
+          else if quote != 0 then
+            if b == 92 && quote != 96 then commentOutside rest quote true
+            else if b == quote then commentOutside rest 0 false
+            else commentOutside rest quote false
+          else if b == 39 || b == 34 || b == 96 then commentOutside rest b false
+          else if b == 47 then
+            match rest with
+            | c :: _ => if c == 47 || c == 42 then true else commentOutside rest 0 false
+            | [] => false
+          else commentOutside rest 0 false
+      if e.any (fun h => commentOutside ((bytesOfHex h).getD []) 0 false) then ({ j with expect := none },
         [s!"VIOLATION case={j.caseId} sig=console:sql-comment-not-understood expected=[{(" ".intercalate e).take 200}] got=[{(" ".intercalate got).take 200}]"])
       else
       let nlToBlank (h : String) : String :=
